@@ -51,6 +51,9 @@ checks = {
  "C14": dict(cat="exploration", engine="simfs", tech="seeded file-operation histories against the real certwatcher / fsnotify / kernel inotify, sequenced by a sentinel-file barrier after every step; reference model of the on-disk pair",
    text="Histories of in-place writes (full / partial / garbage / empty), rename-over and Kubernetes-style symlinked-directory swaps on the two watched paths, either file order, mismatched pairs, same-key renewal, with a barrier after every step at which the presented pair is snapshotted (and every third step a real TLS handshake), optionally with a free-running observer during the steps. The presented pair must match its key, must have existed on disk as a complete pair, must be the new pair once a valid pair is fully in place, and the last good pair otherwise.",
    note="The kernel's inotify and the filesystem are real (a stub event source would encode my belief about which events each update style produces - the very thing under test); the schedule between steps is controlled by the barrier, the event interleaving inside one step is the kernel's. Delete-then-create-later of a watched file is outside the three named update styles (O4) and not generated.", ref="5, 7/C14"),
+ "C13": dict(cat="exploration", tech="deterministic simulation; raw-frame client puts streams into known states (handlers parked by the back-end), then probes; catalogue of admissible reactions (refh2sm) from RFC 7540/9113",
+   text="The server-side stream state is made a function of the client's frames alone (back-end handlers parked until the drain phase), then 1-4 probes from a catalogue of 46 (state, frame) situations plus two special scenarios are sent, with delivery order relative to the handlers chosen by the controller. Reaction must be in the admissible set (RST_STREAM / GOAWAY codes; where the RFC leaves a choice the set is the union), handlers start iff required, GOAWAY last-stream-id covers every request acted on, nothing is served after a connection error, and legal traffic (14 legal probe kinds + set-up + closing request) never draws an error.",
+   note="A catalogue of (state, frame) pairs with random combination and ordering, not a closed-form function over all sequences. Upstream hardening outside the RFC is accommodated, not flagged: duplicate SETTINGS ids and surplus SETTINGS ACKs are refused by the server (O5). A queued RST_STREAM may be dropped when a later frame of the script tears the connection down.", ref="7/C13, appendix A"),
  "C15": dict(cat="exploration", tech="deterministic simulation; routing oracle (exactly one of local answer / back-end record)",
    text="User-Agent variants x methods x protocols x probe flag through the real flag wiring; each request must be answered locally or seen by the back-end, never both or neither, according to the prefix predicate.",
    note="HTTP/1.1 strips optional whitespace around field values before the predicate applies; the oracle accounts for that.", ref="7/C15"),
